@@ -44,6 +44,7 @@ const char *dbus_message_get_error_name (DBusMessage *m) { PRE (m == MSG, "dbus_
 const char *dbus_message_get_destination (DBusMessage *m) { PRE (m == MSG, "dbus_message_get_destination"); return F.destination; }
 dbus_uint32_t dbus_message_get_reply_serial (DBusMessage *m) { PRE (m == MSG, "dbus_message_get_reply_serial"); return F.reply_serial; }
 unsigned int _dbus_message_get_n_unix_fds (DBusMessage *m) { PRE (m == MSG, "_dbus_message_get_n_unix_fds"); return F.n_fds; }
+dbus_bool_t dbus_message_contains_unix_fds (DBusMessage *m) { PRE (m == MSG, "dbus_message_contains_unix_fds"); return F.n_fds > 0; }     /* consistent with the count */
 /* API doc: "Checks whether the message was sent to the given name" (textual comparison with the field) */
 dbus_bool_t dbus_message_has_destination (DBusMessage *m, const char *name)
 { PRE (m == MSG && name != NULL, "dbus_message_has_destination"); return F.destination != NULL && spec_streq (F.destination, name); }
